@@ -186,7 +186,7 @@ def hv_resumable(binary, args, runs, timeout=900):
                     break
         except Exception:
             pass
-        if last < start or restarts > 200:
+        if last < start or restarts > runs + 5:
             raise ToolError("harness %s failed (%d) without progress:\n%s" % (args[0], rc, out[-2000:]))
         start = last + 1
         restarts += 1
